@@ -29,6 +29,37 @@ ASSUMPTIONS = ["block loops over a grid axis are folded once; coverage of the ax
                "key canonicalisation c_() conforms to T-IDX (property C10)"]
 
 
+def _conjuncts(c):
+    return _conjuncts(c.lhs) + _conjuncts(c.rhs) if getattr(c, "op", None) == "and" else [c]
+
+
+def _guard_verdict(ev, c, inverted):
+    """'' when the condition on slogdet's (sign, log|det|) of the inverted matrix is implied by positive definiteness (up to the range of normal doubles),
+    else what it excludes; AnalysisError for a condition this rule cannot read"""
+    lhs, rhs, op = sp.sympify(c.lhs), sp.sympify(c.rhs), c.op
+    if rhs.free_symbols and not lhs.free_symbols:
+        lhs, rhs, op = rhs, lhs, {"<": ">", "<=": ">=", ">": "<", ">=": "<=", "==": "==", "!=": "!="}[op]
+    if not (lhs.is_Symbol and rhs.is_number and not rhs.free_symbols):
+        raise AnalysisError(f"guard in front of the inversion not understood: {c.text}")
+    kind, tag = str(lhs).rsplit("_", 1)
+    of = getattr(ev, "slogdets", {}).get(int(tag))
+    if of is None or any(not is_zero(sp.sympify(of.get((i, j))) - sp.sympify(inverted.get((i, j)))) for i in range(6) for j in range(6)):
+        return f"{c.text}: tests the determinant of a matrix that is not the one inverted"
+    r = float(rhs)
+    if kind == "SLOGDET_SIGN":
+        if (op == ">" and -1 <= r < 1) or (op == ">=" and -1 < r <= 1) or (op == "==" and r == 1) or (op == "!=" and r in (-1.0, 0.0) and False):
+            return ""
+        return f"{c.text}: not the test 'determinant positive'"
+    if kind == "SLOGDET_LOG":
+        # an ABSOLUTE threshold on a quantity with units (stiffness^6 in Ry/bohr^3: 1 GPa = 6.8e-5, so det ~ 1e-16 already for moduli of some tens of GPa).
+        # A tensor as soft as 1 Pa in every eigen-direction has det = (6.8e-14)^6 ~ 1e-79, log = -181: a threshold below exp(-200) excludes nothing that
+        # is a solid (log of the smallest normal double, finfo.tiny, is -708); one above it is a finding
+        if op in (">", ">=") and r <= -200:
+            return ""
+        return f"{c.text}: an absolute threshold exp({r:.4g}) = {sp.exp(rhs).evalf(3)} on the determinant in internal units (Ry/bohr^3)^6"
+    raise AnalysisError(f"guard in front of the inversion not understood: {c.text}")
+
+
 def setup(ctx, model, keys=None):
     seeds, intr, calc = physics_seeds(model)
     tensor_seeds(calc, keys)
@@ -107,6 +138,16 @@ def _r_compliances_one(ctx, model, suffix, order):
               found=f"pseudo-inverse with cut-off {cut}" if cut is not None else "an inverse",
               explanation=f"the stiffness is inverted by a pseudo-inverse that drops every eigenvalue below {cut} x the largest one: for a tensor with a soft mode "
                           f"(near an elastic instability) the compliances are not the inverse, and the Reuss and Hill averages are wrong", key="compliances.truncated" + suffix)
+    # a guard in front of the inversion (compliances left at a fill value where it fails) must hold for every positive-definite stiffness
+    guards = getattr(ev, "inversion_guards", [])
+    for gi, (cond, fill, at) in enumerate(guards):
+        verdicts = [_guard_verdict(ev, c, m) for c in _conjuncts(cond)]
+        bad = [v for v in verdicts if v]
+        ctx.check(not bad, f"the guard in front of the inversion ({cond.text[:80]}) holds wherever the stiffness is positive definite" + suffix, w,
+                  expected="conditions implied by positive definiteness: determinant sign > 0; a log-determinant threshold below exp(-200) (softer than 1 Pa in every direction)",
+                  found="; ".join(bad) or "implied by positive definiteness",
+                  explanation=f"where the guard fails the compliances are left at {fill}: " + ("; ".join(bad)) + " - a soft but positive-definite tensor gets no compliances, "
+                              "and its Reuss and Hill averages and velocities are lost", key=f"compliances.guard{gi}" + suffix)
     comp = calc.attrs.get("_compliances")
     if not isinstance(comp, DictV):
         raise AnalysisError("_calculate_compliances does not bind self._compliances to a dict")
